@@ -465,6 +465,7 @@ func c11L2b(r *Run, rep *core.Report) {
 					rep.Check(at.Len() == n, "C11.L2b", "topHashEntryMasks length", r.P.Pos(v.Pos()), "one top-hash mask per slot", fmt.Sprintf("%d top-hash masks for %d slots", at.Len(), n))
 				}
 			}
+			c11MaskLayout(r, rep, int(n))
 		} else {
 			mask, ok1 := constInt("metaMask")
 			dm, ok2 := constInt("defaultMeta")
@@ -690,13 +691,119 @@ func tableLenForm(r *Run, mm *core.MapModel, v ssa.Value) (string, bool) {
 			}
 		}
 	case *ssa.Call:
-		if cal := core.Callee(x); cal != nil && strings.Contains(strings.ToLower(cal.Name()), "pow") {
-			return "result of " + fn(cal), true
+		cal := core.Callee(x)
+		if cal != nil && isPowOf2Helper(cal) {
+			return "result of the power-of-two rounding " + fn(cal), true
+		}
+		// a sizing helper: every value it returns is itself of an accepted form
+		if cal != nil && cal.Blocks != nil && cal.Pkg == r.P.Xsync {
+			okAll, n := true, 0
+			desc := ""
+			core.Instrs(cal, func(in ssa.Instruction) {
+				ret, isRet := in.(*ssa.Return)
+				if !isRet || len(ret.Results) != 1 {
+					return
+				}
+				n++
+				d, ok := tableLenForm(r, mm, core.StripConv(ret.Results[0]))
+				if !ok {
+					okAll = false
+				}
+				desc += d + "; "
+			})
+			if n > 0 {
+				return "result of " + fn(cal) + " (" + strings.TrimSuffix(desc, "; ") + ")", okAll
+			}
 		}
 	case *ssa.Parameter:
 		return "parameter", true
 	}
 	return v.Name(), false
+}
+
+// isPowOf2Helper recognises the classic round-up-to-a-power-of-two bit trick by its shape: one integer in, one
+// integer out, an or-shift cascade over 1, 2, 4, 8, 16 between a decrement and an increment.
+func isPowOf2Helper(f *ssa.Function) bool {
+	if f == nil || f.Blocks == nil || len(f.Params) != 1 || f.Signature.Results().Len() != 1 {
+		return false
+	}
+	shifts := map[int64]bool{}
+	ors, inc, dec := 0, false, false
+	core.Instrs(f, func(in ssa.Instruction) {
+		b, ok := in.(*ssa.BinOp)
+		if !ok {
+			return
+		}
+		k, isK := core.ConstInt(b.Y)
+		switch b.Op {
+		case token.SHR:
+			if isK {
+				shifts[k] = true
+			}
+		case token.OR:
+			ors++
+		case token.ADD:
+			if isK && k == 1 {
+				inc = true
+			}
+		case token.SUB:
+			if isK && k == 1 {
+				dec = true
+			}
+		}
+	})
+	if ors >= 5 && inc && dec && shifts[1] && shifts[2] && shifts[4] && shifts[8] && shifts[16] {
+		return true
+	}
+	// loop form: for s := 1; s <= 16 (or < 32); s <<= 1 { v |= v >> s }
+	loopOK := false
+	core.Instrs(f, func(in ssa.Instruction) {
+		phi, ok := in.(*ssa.Phi)
+		if !ok || !isIntegral(phi.Type()) {
+			return
+		}
+		startsAt1, doubles := false, false
+		for _, e := range phi.Edges {
+			if k, isK := core.ConstInt(e); isK && k == 1 {
+				startsAt1 = true
+			}
+			if b, isB := e.(*ssa.BinOp); isB {
+				k, isK := core.ConstInt(b.Y)
+				if b.X == ssa.Value(phi) && isK && ((b.Op == token.SHL && k == 1) || (b.Op == token.MUL && k == 2)) {
+					doubles = true
+				}
+				if b.Op == token.ADD && b.X == ssa.Value(phi) && b.Y == ssa.Value(phi) {
+					doubles = true
+				}
+			}
+		}
+		if !startsAt1 || !doubles {
+			return
+		}
+		shiftsByPhi, bounded := false, false
+		for _, ref := range *phi.Referrers() {
+			b, isB := ref.(*ssa.BinOp)
+			if !isB {
+				continue
+			}
+			if b.Op == token.SHR && b.Y == ssa.Value(phi) {
+				for _, r2 := range *b.Referrers() {
+					if o, isO := r2.(*ssa.BinOp); isO && o.Op == token.OR {
+						shiftsByPhi = true
+					}
+				}
+			}
+			if k, isK := core.ConstInt(b.Y); isK && b.X == ssa.Value(phi) {
+				if (b.Op == token.LEQ && k >= 16 && k < 32) || (b.Op == token.LSS && k > 16 && k <= 32) {
+					bounded = true
+				}
+			}
+		}
+		if shiftsByPhi && bounded {
+			loopOK = true
+		}
+	})
+	return loopOK && dec && inc
 }
 
 // ---- L4: clear installs a fresh minimum-size table ----
@@ -727,4 +834,197 @@ func c11L4(r *Run, rep *core.Report) {
 		})
 		rep.Check(nNew == 1 && okMin, "C11.L4", fn(rz)+sp.String(rz)+" fresh minimum table", r.P.Pos(rz.Pos()), "Clear builds exactly one fresh table of the recorded minimum length", "under the clear hint resize does not build exactly one fresh table of the map's minimum length: the contents after Clear would depend on history")
 	}
+}
+
+// c11MaskLayout evaluates the package initialiser of the map package for the analysed target (constant stores,
+// shifts and masks of package-level variables) and checks the bit layout of the packed top-hash word: one mask per
+// slot, all of one width, pairwise disjoint, clear of the lock / presence bits at the bottom of the word, and
+// mask[i] = mask[0] >> (width*i) - the relation the match / store / erase helpers rely on. The values depend on the
+// target (unsafe.Sizeof in an initialiser), so this runs on every configuration that is loaded.
+func c11MaskLayout(r *Run, rep *core.Report, nSlots int) {
+	var init *ssa.Function
+	for _, f := range r.P.Funcs {
+		if f.Pkg == r.P.Xsync && f.Name() == "init" && f.Parent() == nil && f.Signature.Recv() == nil && f.Synthetic != "" {
+			init = f
+		}
+	}
+	if init == nil {
+		if m := r.P.Xsync.Members["init"]; m != nil {
+			init, _ = m.(*ssa.Function)
+		}
+	}
+	if init == nil || init.Blocks == nil {
+		rep.Note("C11.L2b: package initialiser of the map package not found; mask layout not evaluated")
+		return
+	}
+	scal := map[ssa.Value]constant.Value{}
+	glob := map[*ssa.Global]constant.Value{}
+	arr := map[ssa.Value][]constant.Value{}   // local arrays
+	garr := map[*ssa.Global][]constant.Value{} // global arrays
+	elem := map[ssa.Value]struct {
+		base ssa.Value
+		idx  int
+	}{}
+	var eval func(v ssa.Value) constant.Value
+	eval = func(v ssa.Value) constant.Value {
+		if c, ok := v.(*ssa.Const); ok {
+			if c.Value != nil && c.Value.Kind() == constant.Int {
+				return c.Value
+			}
+			return nil
+		}
+		return scal[v]
+	}
+	for _, b := range init.Blocks {
+		for _, in := range b.Instrs {
+			switch x := in.(type) {
+			case *ssa.Alloc:
+				if at, ok := x.Type().Underlying().(*types.Pointer).Elem().Underlying().(*types.Array); ok {
+					arr[x] = make([]constant.Value, at.Len())
+				}
+			case *ssa.IndexAddr:
+				if k, ok := core.ConstInt(x.Index); ok {
+					elem[x] = struct {
+						base ssa.Value
+						idx  int
+					}{x.X, int(k)}
+				}
+			case *ssa.UnOp:
+				if x.Op != token.MUL {
+					continue
+				}
+				if g, ok := x.X.(*ssa.Global); ok {
+					if c := glob[g]; c != nil {
+						scal[x] = c
+					}
+					continue
+				}
+				if a, ok := arr[x.X]; ok {
+					arr[x] = a // whole-array load
+				}
+			case *ssa.BinOp:
+				a, c := eval(x.X), eval(x.Y)
+				if a == nil || c == nil {
+					continue
+				}
+				switch x.Op {
+				case token.SHL, token.SHR:
+					if sh, ok := constant.Uint64Val(c); ok && sh < 128 {
+						v := constant.Shift(a, x.Op, uint(sh))
+						if x.Op == token.SHL {
+							// keep to the width of the result type
+							if bt, ok := x.Type().Underlying().(*types.Basic); ok {
+								w := r.P.Sizes().Sizeof(bt) * 8
+								if w > 0 && w <= 64 {
+									m := constant.BinaryOp(constant.Shift(constant.MakeInt64(1), token.SHL, uint(w)), token.SUB, constant.MakeInt64(1))
+									v = constant.BinaryOp(v, token.AND, m)
+								}
+							}
+						}
+						scal[x] = v
+					}
+				case token.AND, token.OR, token.XOR, token.AND_NOT, token.ADD, token.SUB, token.MUL:
+					scal[x] = constant.BinaryOp(a, x.Op, c)
+				}
+			case *ssa.Convert:
+				if c := eval(x.X); c != nil {
+					scal[x] = c
+				}
+			case *ssa.Store:
+				if g, ok := x.Addr.(*ssa.Global); ok {
+					if c := eval(x.Val); c != nil {
+						glob[g] = c
+					} else if a, ok := arr[x.Val]; ok {
+						garr[g] = append([]constant.Value(nil), a...)
+					}
+					continue
+				}
+				if e, ok := elem[x.Addr]; ok {
+					if a, ok := arr[e.base]; ok && e.idx < len(a) {
+						a[e.idx] = eval(x.Val)
+					}
+					// element of a package-level array initialised in place
+					if g, isG := e.base.(*ssa.Global); isG {
+						if at, ok := g.Type().Underlying().(*types.Pointer).Elem().Underlying().(*types.Array); ok {
+							if garr[g] == nil {
+								garr[g] = make([]constant.Value, at.Len())
+							}
+							if e.idx < len(garr[g]) {
+								garr[g][e.idx] = eval(x.Val)
+							}
+						}
+					}
+				}
+			}
+		}
+	}
+	n := 0
+	for g, masks := range garr {
+		if len(masks) != nSlots {
+			continue
+		}
+		bt, ok := g.Type().Underlying().(*types.Pointer).Elem().Underlying().(*types.Array).Elem().Underlying().(*types.Basic)
+		if !ok || bt.Kind() != types.Uint64 {
+			continue
+		}
+		var ms []uint64
+		okAll := true
+		for _, c := range masks {
+			if c == nil {
+				okAll = false
+				break
+			}
+			u, exact := constant.Uint64Val(c)
+			if !exact {
+				okAll = false
+				break
+			}
+			ms = append(ms, u)
+		}
+		cons := "bit layout of " + g.Name() + archSuffix(r)
+		if !okAll {
+			rep.Note("C11.L2b: initial value of " + g.Name() + " is not a compile-time constant; mask layout not evaluated")
+			continue
+		}
+		n++
+		width := bitsOn(ms[0])
+		low := uint64(1)<<uint(nSlots+1) - 1
+		bad := ""
+		var union uint64
+		for i, m := range ms {
+			switch {
+			case bitsOn(m) != width || width == 0:
+				bad = fmt.Sprintf("mask %d (%#x) has %d bits, mask 0 has %d: the slots' top hashes have different widths", i, m, bitsOn(m), width)
+			case union&m != 0:
+				bad = fmt.Sprintf("mask %d (%#x) overlaps an earlier slot's mask: storing one slot's top hash corrupts another's", i, m)
+			case m&low != 0:
+				bad = fmt.Sprintf("mask %d (%#x) overlaps the lock / presence bits %#x at the bottom of the word", i, m, low)
+			case m != ms[0]>>(uint(width)*uint(i)):
+				bad = fmt.Sprintf("mask %d (%#x) is not mask 0 (%#x) shifted right by %d: the match / store helpers shift by that amount", i, m, ms[0], width*i)
+			}
+			union |= m
+			if bad != "" {
+				break
+			}
+		}
+		rep.Check(bad == "", "C11.L2b", cons, r.P.Pos(g.Pos()), fmt.Sprintf("%d disjoint %d-bit masks above the flag bits: %#x", len(ms), width, ms), bad)
+	}
+	if n == 0 {
+		rep.Note("C11.L2b: no per-slot mask table found in the map package's initialiser")
+	}
+}
+
+func bitsOn(x uint64) int {
+	n := 0
+	for ; x != 0; x &= x - 1 {
+		n++
+	}
+	return n
+}
+
+func archSuffix(r *Run) string {
+	if r.P.GOARCH != "" {
+		return " [GOARCH=" + r.P.GOARCH + "]"
+	}
+	return ""
 }
